@@ -50,18 +50,25 @@ REG = {
         dict(name='c08::fr_from_repr_acceptance', tier='quick', t=1800, stubbing=True),
     ],
     'c04': [
-        dict(name='c04::g1_uncompressed', tier='quick', t=2400, stubbing=True),
-        dict(name='c04::g1_uncompressed_reencode', tier='quick', t=2400, stubbing=True),
-        dict(name='c04::g1_uncompressed_checked', tier='quick', t=2400, stubbing=True),
-        dict(name='c04::g1_compressed', tier='quick', t=2400, stubbing=True),
-        dict(name='c04::g2_uncompressed', tier='quick', t=3600, stubbing=True, mem=24),
-        dict(name='c04::g2_uncompressed_reencode', tier='quick', t=3600, stubbing=True, mem=24),
-        dict(name='c04::g2_uncompressed_checked', tier='quick', t=3600, stubbing=True, mem=24),
-        dict(name='c04::g2_compressed', tier='quick', t=3600, stubbing=True, mem=24),
+        dict(name='c04::g1_uncompressed', tier='quick', t=800, stubbing=True),
+        dict(name='c04::g1_uncompressed_reencode', tier='quick', t=800, stubbing=True),
+        dict(name='c04::g1_uncompressed_checked', tier='quick', t=800, stubbing=True),
+        dict(name='c04::g1_compressed', tier='quick', t=800, stubbing=True),
+        dict(name='c04::g2_uncompressed_flags', tier='quick', t=800, stubbing=True),
+        dict(name='c04::g2_compressed_flags', tier='quick', t=800, stubbing=True),
+        dict(name='c04::g2_uncompressed', tier='thorough', t=5400, stubbing=True, mem=24),
+        dict(name='c04::g2_uncompressed_reencode', tier='thorough', t=5400, stubbing=True, mem=24),
+        dict(name='c04::g2_uncompressed_checked', tier='thorough', t=5400, stubbing=True, mem=24),
+        dict(name='c04::g2_compressed', tier='thorough', t=5400, stubbing=True, mem=24),
     ],
     'c05': [
-        dict(name='c04::g1_encode_roundtrip', tier='quick', t=2400, stubbing=True),
-        dict(name='c04::g2_encode_roundtrip', tier='quick', t=3600, stubbing=True, mem=24),
+        dict(name='c04::g1_encode_roundtrip', tier='quick', t=800, stubbing=True),
+        dict(name='c04::g1_uncompressed_reencode', tier='quick', t=800, stubbing=True),
+        dict(name='c04::g2_sort_flag_rule', tier='quick', t=800, stubbing=True),
+        dict(name='c04::g1_compressed', tier='quick', t=800, stubbing=True),
+        dict(name='c04::g2_encode_roundtrip', tier='thorough', t=5400, stubbing=True, mem=24),
+        dict(name='c04::g2_uncompressed_reencode', tier='thorough', t=5400, stubbing=True, mem=24),
+        dict(name='c04::g2_compressed', tier='thorough', t=5400, stubbing=True, mem=24),
     ],
     'c18': [
         dict(name='c18::fq_sgn0_order_negation', tier='quick', t=1800, stubbing=True),
@@ -101,7 +108,7 @@ REG = {
         dict(name='c19::g2_affine_de_96', tier='thorough', t=2400, stubbing=True),
         dict(name='c19::g2_affine_de_191', tier='thorough', t=2400, stubbing=True),
         dict(name='c19::g2_affine_de_193', tier='quick', t=3600, stubbing=True),
-        dict(name='c19::g1_projective_de_and_ser', tier='quick', t=2400, stubbing=True),
+        dict(name='c19::g1_projective_de_and_ser', tier='thorough', t=3600, stubbing=True),
         dict(name='c19::g1_projective_de_47', tier='quick', t=2400, stubbing=True),
         dict(name='c19::g1_projective_de_95', tier='quick', t=2400, stubbing=True),
         dict(name='c19::g1_projective_de_96', tier='thorough', t=2400, stubbing=True),
@@ -219,21 +226,108 @@ def parse(out, rc):
     return r
 
 
+def parse_multi(out, names):
+    """split the output of one multi-harness `cargo kani -j N --output-format terse` run into per-harness verdicts"""
+    cur = {}            # thread -> harness
+    blocks = {n: [] for n in names}
+    thread = None
+    for line in out.split('\n'):
+        m = re.match(r'Thread (\d+): ?(.*)$', line)
+        if m:
+            thread = m.group(1)
+            rest = m.group(2)
+            mm = re.match(r'Checking harness (\S+?)\.\.\.', rest)
+            if mm:
+                cur[thread] = mm.group(1)
+            if thread in cur and cur[thread] in blocks:
+                blocks[cur[thread]].append(rest)
+        elif thread is not None and thread in cur and cur[thread] in blocks:
+            blocks[cur[thread]].append(line)
+    res = {}
+    for n in names:
+        text = '\n'.join(blocks[n])
+        r = parse(text, 0)
+        if not blocks[n]:
+            r['status'] = 'NOT-RUN'
+        elif r['status'] == 'UNKNOWN' and ('timed out' in text.lower() or 'timeout' in text.lower()):
+            r['status'] = 'TIMEOUT'
+        m = re.search(r'Verification Time: ([\d.]+)s', text)
+        r['seconds'] = float(m.group(1)) if m else None
+        fails = re.findall(r'Failed Checks: ([^\n]+)', text)
+        if fails and not r['failed_checks']:
+            r['failed_checks'] = fails[:20]
+            if r['status'] == 'FAILED' and all('unwinding assertion' in f for f in fails):
+                r['status'] = 'UNWIND'
+        r['text'] = text
+        res[n] = r
+    return res
+
+
 def run_harnesses(ctx, prefix, tier_filter=True, only=None):
+    """all selected harnesses of a property in ONE `cargo kani` invocation (compiled once, verified on SLOTS threads)"""
     chk = ctx.chk
     hs = [h for h in REG[prefix] if (h['tier'] == 'quick' or ctx.tier == 'thorough' or not tier_filter)]
     if only:
         hs = [h for h in hs if any(o in h['name'] for o in only)]
+    if not hs:
+        return []
     root, crate = prepare_crate()
-    logdir = os.path.join(ctx.scratch, 'kani-logs')
-    keep = os.environ.get('VERIF_KEEP_LOGS')
-    if keep:
-        logdir = keep
-    with ThreadPoolExecutor(max_workers=min(SLOTS, max(1, len(hs)))) as pool:
-        results = list(pool.map(lambda h: run_one(root, crate, h, logdir), hs))
-    for r in results:
+    logdir = os.environ.get('VERIF_KEEP_LOGS') or os.path.join(ctx.scratch, 'kani-logs')
+    os.makedirs(logdir, exist_ok=True)
+    names = [h['name'] for h in hs]
+    tmax = max(h.get('t', 900) for h in hs)
+    mem_kb = int(max(h.get('mem', 14) for h in hs) * 1024 * 1024)
+    # exclusive target dir (one of SLOTS, across concurrently running checks)
+    slot, fh = None, None
+    while slot is None:
+        for i in range(SLOTS):
+            f = open(os.path.join(root, 'kani-multi-%d.lock' % i), 'w')
+            try:
+                fcntl.flock(f, fcntl.LOCK_EX | fcntl.LOCK_NB)
+                slot, fh = i, f
+                break
+            except OSError:
+                f.close()
+        if slot is None:
+            time.sleep(1.0)
+    t0 = time.time()
+    try:
+        tdir = os.path.join(root, 'kani-target-multi-%d' % slot)
+        args = ['cargo', 'kani', '--exact'] + [x for n in names for x in ('--harness', n)] + \
+               ['-j', str(min(SLOTS, len(names))), '--output-format', 'terse', '-Z', 'stubbing', '-Z', 'unstable-options',
+                '--harness-timeout', '%ds' % tmax, '--target-dir', tdir]
+        total = tmax * (1 + (len(names) - 1) // SLOTS) + 900
+        cmd = 'ulimit -v %d; exec timeout -k 20 %d %s' % (mem_kb, total, ' '.join(args))
+        env = dict(os.environ, CARGO_NET_OFFLINE='true')
+        env.pop('RUSTUP_TOOLCHAIN', None)
+        env.pop('CARGO_TARGET_DIR', None)
+        p = subprocess.run(['bash', '-c', cmd], cwd=crate, env=env, stdout=subprocess.PIPE, stderr=subprocess.STDOUT, text=True)
+        out = p.stdout
+    finally:
+        fcntl.flock(fh, fcntl.LOCK_UN)
+        fh.close()
+    wall = round(time.time() - t0, 1)
+    with open(os.path.join(logdir, prefix + '_multi.log'), 'w') as lf:
+        lf.write(out)
+    per = parse_multi(out, names)
+    build_error = ('error: could not compile' in out) or ('error[' in out and 'Checking harness' not in out)
+    results = []
+    for h in hs:
+        r = per[h['name']]
+        if build_error and r['status'] in ('NOT-RUN', 'UNKNOWN'):
+            r['status'] = 'BUILD-ERROR'
+            r['detail'] = out[-1500:]
+        if r['status'] in ('NOT-RUN', 'UNKNOWN') and p.returncode in (124, 137):
+            r['status'] = 'TIMEOUT'
+        r.pop('text', None)
+        r.update(harness=h['name'], tier=h['tier'], rc=p.returncode)
+        if r.get('seconds') is None:
+            r['seconds'] = wall
+        results.append(r)
         chk.kani.append(r)
-        print('  kani %-45s %-8s checks=%s covers=%s/%s %.0fs' % (r['harness'], r['status'], r['checks'], r['covers_sat'], r['covers'], r['seconds']))
+        print('  kani %-45s %-8s checks=%s covers=%s/%s %.0fs' % (r['harness'], r['status'], r['checks'], r['covers_sat'], r['covers'], r['seconds'] or 0))
+    chk.extra['kani_invocation'] = {'harnesses': len(names), 'jobs': min(SLOTS, len(names)), 'wall_s': wall, 'per_harness_timeout_s': tmax,
+                                    'flags': '--exact -j N --output-format terse -Z stubbing -Z unstable-options --harness-timeout'}
     return results
 
 
